@@ -202,10 +202,10 @@ package xmss
 //@ lemma xmss.L_lnode_congA[XF] induction t uses xmss.L_randHash_cong : forall t, hf, PS:arr, A1:arr, A2:arr, PK:arr, o, n, i :: (forall w_ :: 0 <= w_ && w_ < 5 ==> A1[w_] == A2[w_]) ==> spec.lnode(hf, PS, A1, PK, o, n, t, i) == spec.lnode(hf, PS, A2, PK, o, n, t, i)
 //@ lemma xmss.L_fold_congA[XF] induction j uses xmss.L_randHash_cong : forall j, hf, PS:arr, A1:arr, A2:arr, L:arr, idx, AU:arr, ao :: (forall w_ :: 0 <= w_ && w_ < 5 ==> A1[w_] == A2[w_]) ==> spec.fold(hf, PS, A1, L, idx, AU, ao, j) == spec.fold(hf, PS, A2, L, idx, AU, ao, j)
 //@ lemma xmss.L_lnode_congPK[XF] induction t uses xmss.L_randHash_cong : forall t, hf, PS:arr, A:arr, PK1:arr, o1, PK2:arr, o2, n, i :: n >= 1 && (forall p_ :: o1 <= p_ && p_ < o1 + 32*n ==> PK1[p_] == PK2[p_ - o1 + o2]) ==> spec.llen(n, t) >= 1 && spec.llen(n, t) <= n && (0 <= i && i < spec.llen(n, t) ==> spec.lnode(hf, PS, A, PK1, o1, n, t, i) == spec.lnode(hf, PS, A, PK2, o2, n, t, i))
-//@ lemma xmss.L_fold_congL[XF] induction j uses xmss.L_randHash_cong : forall j, hf, PS:arr, A:arr, L1:arr, L2:arr, idx, AU:arr, ao :: j >= 1 && (forall q_ :: 0 <= q_ && q_ < 32 ==> L1[q_] == L2[q_]) ==> spec.foldTop(hf, PS, A, L1, idx, AU, ao, j) == spec.foldTop(hf, PS, A, L2, idx, AU, ao, j)
+//@ lemma xmss.L_fold_congL[XF] induction j uses xmss.L_randHash_cong : forall j, hf, PS:arr, A:arr, L1:arr, L2:arr, idx, AU:arr, ao :: j >= 1 && (forall q_ :: 0 <= q_ && q_ < 32 ==> L1[q_] == L2[q_]) ==> spec.fold(hf, PS, A, L1, idx, AU, ao, j) == spec.fold(hf, PS, A, L2, idx, AU, ao, j)
 //@ lemma xmss.L_llen_table[XF] : spec.llenS(67, 0) == 67 && spec.llenS(67, 1) == 34 && spec.llenS(67, 2) == 17 && spec.llenS(67, 3) == 9 && spec.llenS(67, 4) == 5 && spec.llenS(67, 5) == 3 && spec.llenS(67, 6) == 2 && spec.llenS(67, 7) == 1 && spec.llenS(133, 0) == 133 && spec.llenS(133, 1) == 67 && spec.llenS(133, 2) == 34 && spec.llenS(133, 3) == 17 && spec.llenS(133, 4) == 9 && spec.llenS(133, 5) == 5 && spec.llenS(133, 6) == 3 && spec.llenS(133, 7) == 2 && spec.llenS(133, 8) == 1 && spec.llenS(34, 0) == 34 && spec.llenS(34, 1) == 17 && spec.llenS(34, 2) == 9 && spec.llenS(34, 3) == 5 && spec.llenS(34, 4) == 3 && spec.llenS(34, 5) == 2 && spec.llenS(34, 6) == 1
 //@ lemma xmss.L_lnode_cong2[XF] uses xmss.L_lnode_congA,xmss.L_lnode_congPK : forall t, hf, PS:arr, A1:arr, A2:arr, PK1:arr, o1, PK2:arr, o2, n, i :: n >= 1 && 0 <= i && i < spec.llen(n, t) && (forall w_ :: 0 <= w_ && w_ < 5 ==> A1[w_] == A2[w_]) && (forall p_ :: o1 <= p_ && p_ < o1 + 32*n ==> PK1[p_] == PK2[p_ - o1 + o2]) ==> spec.lnode(hf, PS, A1, PK1, o1, n, t, i) == spec.lnode(hf, PS, A2, PK1, o1, n, t, i) && spec.lnode(hf, PS, A2, PK1, o1, n, t, i) == spec.lnode(hf, PS, A2, PK2, o2, n, t, i) && spec.lnode(hf, PS, A1, PK1, o1, n, t, i) == spec.lnode(hf, PS, A2, PK2, o2, n, t, i)
-//@ lemma xmss.L_fold_cong2[XF] uses xmss.L_fold_congA,xmss.L_fold_congL : forall j, hf, PS:arr, A1:arr, A2:arr, L1:arr, L2:arr, idx, AU:arr, ao :: j >= 1 && (forall w_ :: 0 <= w_ && w_ < 5 ==> A1[w_] == A2[w_]) && (forall q_ :: 0 <= q_ && q_ < 32 ==> L1[q_] == L2[q_]) ==> spec.fold(hf, PS, A1, L1, idx, AU, ao, j) == spec.fold(hf, PS, A2, L1, idx, AU, ao, j) && spec.foldTop(hf, PS, A2, L1, idx, AU, ao, j) == spec.foldTop(hf, PS, A2, L2, idx, AU, ao, j) && spec.foldTop(hf, PS, A1, L1, idx, AU, ao, j) == spec.foldTop(hf, PS, A2, L2, idx, AU, ao, j)
+//@ lemma xmss.L_fold_cong2[XF] uses xmss.L_fold_congA,xmss.L_fold_congL : forall j, hf, PS:arr, A1:arr, A2:arr, L1:arr, L2:arr, idx, AU:arr, ao :: j >= 1 && (forall w_ :: 0 <= w_ && w_ < 5 ==> A1[w_] == A2[w_]) && (forall q_ :: 0 <= q_ && q_ < 32 ==> L1[q_] == L2[q_]) ==> spec.fold(hf, PS, A1, L1, idx, AU, ao, j) == spec.fold(hf, PS, A2, L1, idx, AU, ao, j) && spec.fold(hf, PS, A2, L1, idx, AU, ao, j) == spec.fold(hf, PS, A2, L2, idx, AU, ao, j) && spec.foldTop(hf, PS, A1, L1, idx, AU, ao, j) == spec.foldTop(hf, PS, A2, L2, idx, AU, ao, j)
 //@ lemma xmss.L_fold_cong3[XF] uses xmss.L_fold_cong2 : forall j, hf, PS:arr, A1:arr, A2:arr, L1:arr, L2:arr, idx, AU:arr, ao :: j >= 1 && (forall w_ :: 0 <= w_ && w_ < 5 ==> A1[w_] == A2[w_]) && (forall q_ :: 0 <= q_ && q_ < 32 ==> L1[q_] == L2[q_]) ==> spec.foldTop(hf, PS, A1, L1, idx, AU, ao, j) == spec.foldTop(hf, PS, A2, L2, idx, AU, ao, j)
 // L-tree (RFC 8391 Algorithm 8): the leaf is node 0 of the last level of spec.lnode over the WOTS+ public key.
 //@ pred ltab(len, t, l) := (len == 67 && ((t == 0 && l == 67) || (t == 1 && l == 34) || (t == 2 && l == 17) || (t == 3 && l == 9) || (t == 4 && l == 5) || (t == 5 && l == 3) || (t == 6 && l == 2) || (t == 7 && l == 1))) || (len == 133 && ((t == 0 && l == 133) || (t == 1 && l == 67) || (t == 2 && l == 34) || (t == 3 && l == 17) || (t == 4 && l == 9) || (t == 5 && l == 5) || (t == 6 && l == 3) || (t == 7 && l == 2) || (t == 8 && l == 1))) || (len == 34 && ((t == 0 && l == 34) || (t == 1 && l == 17) || (t == 2 && l == 9) || (t == 3 && l == 5) || (t == 4 && l == 3) || (t == 5 && l == 2) || (t == 6 && l == 1)))
